@@ -213,7 +213,7 @@ class C02(ProgramProperty):
             if g != e:
                 for a, b in zip(g, e):
                     if a != b and kind == 'withitem' and b[0] <= a[0] and a[1] <= b[1] and \
-                            re.fullmatch(rb'[\s(]*(#[^\r\n]*[\r\n]+[\s(]*)*', w.data[b[0]:a[0]]) and re.fullmatch(rb'[\s)]*(#[^\r\n]*[\r\n]+[\s)]*)*', w.data[a[1]:b[1]]):
+                            re.fullmatch(rb'[\s(]*+(#[^\r\n]*+[\r\n]++[\s(]*+)*+', w.data[b[0]:a[0]]) and re.fullmatch(rb'[\s)]*+(#[^\r\n]*+[\r\n]++[\s)]*+)*+', w.data[a[1]:b[1]]):
                         # `with (a):` - the parentheses may belong to the statement form or to the expression: either extent is the item's own text
                         w.ctx.count('withitem_paren_ambiguity')
                         continue
@@ -238,7 +238,7 @@ class C02(ProgramProperty):
         d = f.detail
         t = case['text']
         if 'C02-F1' in ids and sig == 'range_differs:NamedExpr:end' and d.get('tail') and \
-                re.fullmatch(r'(?:[\s)]|\\[\r\n]+|#[^\r\n]*)*', d['tail']) and ')' in d['tail']:
+                re.fullmatch(r'(?:[\s)]|\\[\r\n]+|#[^\r\n]*+)*+', d['tail']) and ')' in d['tail']:
             # the missing part consists of closing parentheses (with layout between them) only
             return 'C02-F1'
         if 'C02-F2' in ids and sig.startswith('range_differs:GeneratorExp') and 'Call.args[0]' in d['path']:
